@@ -31,3 +31,4 @@ for p in "$@"; do
 done
 git -C /repo checkout -- .
 git -C /repo status --short | head -3
+/venv/bin/python "$here/harness/translate.py" --all > /dev/null 2>&1     # regenerate model data from the restored tree
